@@ -1,6 +1,6 @@
 (* C14 - Policies and selectors are parsed losslessly or rejected. *)
 From Coq Require Import String.
-Require Import Base Node Selector SelParse SelParseProofs Glob Policy PolicyIpld PolicyIpldProofs.
+Require Import Base Node Selector SelParse SelParseProofs Glob Policy PolicyIpld PolicyIpldProofs SealedBytes CanonProofs DagJson DagJsonProofs PolicyJsonProofs.
 Local Open Scope N_scope.
 
 (* the tokenizer drops nothing *)
@@ -51,3 +51,27 @@ Example C14_nonvacuous :
 Proof.
   repeat split; try (eexists; vm_compute; reflexivity); eexists; split; vm_compute; reflexivity.
 Qed.
+
+(* ---- the DAG-JSON route (Policy.ToDagJson / policy.FromDagJson through the codec model of DagJson.v): a policy written
+   as DAG-JSON text and read back is the policy that was written, up to the order of entries of map literals in its
+   values (JSON lists keys bytewise) - and that difference is not visible to matching: same verdicts, full and partial,
+   on every data. Premises: constructor-made statements, integers in range, the text inside the codec's lossless
+   domain (no floats, UTF-8 strings, no key "/"), no map literal repeating a key, decoder depth budget. ---- *)
+Theorem C14_policy_dagjson_roundtrip : forall p f, Forall wf_stmt p -> ints_in53 (pol_to_ipld p) = true ->
+  jsafe (pol_to_ipld p) -> keys_distinct (pol_to_ipld p) -> (jdepth (pol_to_ipld p) <= f)%nat ->
+  exists p', pol_from_json f (pol_to_json p) = Ok p' /\ map canon_stmt p' = map canon_stmt p.
+Proof. exact policy_json_roundtrip. Qed.
+Print Assumptions C14_policy_dagjson_roundtrip.
+
+Theorem C14_policy_dagjson_same_verdicts : forall p f n, Forall wf_stmt p -> ints_in53 (pol_to_ipld p) = true ->
+  jsafe (pol_to_ipld p) -> keys_distinct (pol_to_ipld p) -> (jdepth (pol_to_ipld p) <= f)%nat ->
+  exists p', pol_from_json f (pol_to_json p) = Ok p' /\
+             policy_match (map sem p') n = policy_match (map sem p) n /\ policy_partial (map sem p') n = policy_partial (map sem p) n.
+Proof. exact policy_json_same_verdicts. Qed.
+Print Assumptions C14_policy_dagjson_same_verdicts.
+
+(* matching does not see the canonical order of map literals in a policy *)
+Theorem C14_verdicts_ignore_literal_order : forall p p' n, map canon_stmt p' = map canon_stmt p ->
+  policy_match (map sem p') n = policy_match (map sem p) n /\ policy_partial (map sem p') n = policy_partial (map sem p) n.
+Proof. exact policy_verdict_ignores_literal_order. Qed.
+Print Assumptions C14_verdicts_ignore_literal_order.
